@@ -44,6 +44,7 @@ type Ctx struct {
 	opaque    map[string]int
 	mods      *modAnalysis
 	mutableGlobals map[string]bool
+	writtenTables  map[string]bool
 	initNonNil     map[string]bool
 	initStrings    map[string][]string
 	fileLines      map[string][]string
